@@ -360,3 +360,38 @@ mod tests {
         assert_eq!(worker.num_tokens(), 0);
     }
 }
+
+#[cfg(feature = "verif")]
+impl Tokenizer {
+    pub fn verif_build_lattice(&self, sent: &Sentence, lattice: &mut Lattice) {
+        self.build_lattice(sent, lattice)
+    }
+
+    pub fn verif_build_lattice_inner<C>(&self, sent: &Sentence, lattice: &mut Lattice, connector: &C)
+    where
+        C: ConnectorCost,
+    {
+        self.build_lattice_inner(sent, lattice, connector)
+    }
+
+    pub fn verif_add_lattice_edges<C>(
+        &self,
+        sent: &Sentence,
+        lattice: &mut Lattice,
+        start_node: usize,
+        start_word: usize,
+        connector: &C,
+    ) where
+        C: ConnectorCost,
+    {
+        self.add_lattice_edges(sent, lattice, start_node, start_word, connector)
+    }
+
+    pub const fn verif_space_cateset(&self) -> Option<u32> {
+        self.space_cateset
+    }
+
+    pub const fn verif_max_grouping_len(&self) -> Option<usize> {
+        self.max_grouping_len
+    }
+}
